@@ -146,7 +146,11 @@ def real_call(cfg, state, obs_list, user):
                 out["res"] = [raw]
             else:
                 if list(raw.keys()) != [o.name for o in obs_list]:
-                    raise common.MachineryError("System result keys %r" % (list(raw.keys()),))
+                    # documented: "keys will be the names of the observables" - a finding, reported with its input
+                    class SystemResultKeys(Exception):
+                        pass
+                    raise SystemResultKeys("System.statistics returned keys %r for observables named %r"
+                                           % (list(raw.keys()), [o.name for o in obs_list]))
                 out["res"] = [raw[o.name] for o in obs_list]
         except common.MachineryError:
             raise
